@@ -1011,7 +1011,18 @@ fn exec_repair(variant: &str, seed: u64) -> String {
     // "all subsets of index files": make sure there are several index files to choose from (a prune leaves a single one)
     let mut round = 10u64;
     while sc.h.be.ids(FileType::Index).len() < 3 && which != "badhint" {
-        let src = gen_source(&mut rng, 3, 20_000);
+        // other files than before: new names and times (equal name + size + mtime would be taken from the parent snapshot)
+        let mut entries = Vec::new();
+        for mut e in gen_source(&mut rng, 3, 20_000).entries {
+            if let repo::SrcKind::File(_) = e.kind {
+                if let Some(last) = e.path.last_mut() {
+                    last.extend_from_slice(format!("-r{round}").as_bytes());
+                }
+                e.mtime_s += round as i64 * 100;
+                entries.push(e);
+            }
+        }
+        let src = MemSource::new(entries);
         let snap = match SnapshotOptions::default().to_snapshot() {
             Ok(s) => s,
             Err(e) => return errkind(&e),
